@@ -257,6 +257,16 @@ func (env *Env) evalIdent(name string) (Val, error) {
 	if strings.HasPrefix(name, "#") {
 		return env.evalHash(name)
 	}
+	if strings.HasSuffix(name, "0") && fr.fn != nil {
+		// <param>0 is the entry value of a parameter (parameters are mutable variables in Go)
+		for _, prm := range fr.fn.Params {
+			if prm.Name()+"0" == name {
+				if t, ok := fr.vals[prm]; ok {
+					return Val{T: t, Typ: prm.Type()}, nil
+				}
+			}
+		}
+	}
 	if !env.noLookup {
 		if v, ok := env.lookupSource(name); ok {
 			return v, nil
